@@ -215,8 +215,11 @@ def step (s : St) (line : String) : IO St := do
     let w := widths
     let want := [("pb", 2 ^ w.padding_bytes - 1), ("pr", 2 ^ w.padding_rows - 1), ("pc", 2 ^ w.padding_columns - 1),
                  ("sb", 2 ^ w.size_bytes - 1), ("la", 2 ^ w.lookahead_bytes - 1), ("links", MAX_LINK_COUNT), ("maxlinks", MAX_LINK_COUNT),
-                 ("inline", 1), ("sym300inline", 0), ("sym300rb", 300), ("extinline", 0)]
+                 ("inline", 1), ("sym300inline", 0), ("sym300rb", 300), ("extinline", 0),
+                 ("capslots", maxStepCaptureCount), ("maxcaps", maxStepCaptureCount), ("stepdepth", 7), ("stepsym", 5), ("stepalt", 1)]
+    let capsWant := ",".intercalate (((List.range 6).map (· + 1)).foldl (fun st c => addCapture st c) []|>.map toString)
     let bad := want.filter fun (k, v) => kvGet r k != toString v
+    let bad := if kvGet r "caps" == capsWant then bad else bad ++ [("caps", 0)]
     let corr := if bad.isEmpty then "ok" else "DIFF:" ++ ",".intercalate (bad.map fun (k, v) => s!"{k}:model:{v}:real:{kvGet r k}")
     IO.println s!"{id} kind=bits corr={corr} judge=ok"
     return s
